@@ -165,6 +165,13 @@ mod scalar {
     use ::glam_scalar as glam;
     include!("suite.rs");
 }
+/// scalar-math with `glam-assert`: the second pass for the scalar copies (a quarter of the volume)
+#[cfg(not(feature = "core"))]
+mod scalar_asserting {
+    pub const VARIANT: &str = "scalar+glam-assert";
+    use ::glam_scalar_assert as glam;
+    include!("suite.rs");
+}
 /// the same checks with `glam-assert` compiled in: the generated inputs satisfy the documented preconditions,
 /// so a panic there is a failure
 #[cfg(not(feature = "core"))]
@@ -188,6 +195,7 @@ fn main() {
         subs.extend(simd::subs(&args));
         subs.extend(scalar::subs(&args));
         subs.extend(asserting::subs(&args));
+        subs.extend(scalar_asserting::subs(&args).into_iter().map(|s| s.with_div(4)));
     }
     #[cfg(feature = "core")]
     {
